@@ -104,6 +104,10 @@ type Interp struct {
 	Hook func(it *Interp, call *ssa.CallCommon, args []AVal) (AVal, bool)
 	// IntCap: integers at or above this value are merged into the cap (the "post" class)
 	IntCap map[string]int64
+	// NilTracked: tracked interface/pointer fields kept only as nil / non-nil; a method call on a nil
+	// one, or passing a nil one to a module function that invokes a method on that parameter in its
+	// entry block, is a panic outcome
+	NilTracked map[string]bool
 	// Notable: callee names recorded on the path
 	Notable map[string]bool
 	Err     error
@@ -289,6 +293,9 @@ func (it *Interp) block(fr *frame, b *ssa.BasicBlock, prev *ssa.BasicBlock, star
 			if addr.K == AFieldPtr {
 				v := it.get(fr, x.Val)
 				if it.Tracked[addr.S] {
+					if it.NilTracked[addr.S] && v.K != ANil {
+						v = AVal{K: ANonNil}
+					}
 					if v.K == AInt {
 						v.I = it.capInt(addr.S, v.I)
 					}
@@ -534,6 +541,27 @@ func (it *Interp) doCall(fr *frame, call *ssa.Call, p *path, depth int, k func(p
 		}
 		it.fail("%s: atomic add on %s with unknown operands", fr.fn, args[0].S)
 		return
+	}
+	if len(it.NilTracked) > 0 {
+		if cc.IsInvoke() && it.get(fr, cc.Value).K == ANil {
+			p.labels = append(p.labels, "nil."+short)
+			k(p, AVal{}, true)
+			return
+		}
+		if callee := StaticCallee(cc); callee != nil && callee.Blocks != nil && it.P.InModule(callee) {
+			for i, a := range args {
+				if a.K != ANil || i >= len(callee.Params) {
+					continue
+				}
+				for _, in := range callee.Blocks[0].Instrs {
+					if c2, ok := in.(ssa.CallInstruction); ok && c2.Common().IsInvoke() && c2.Common().Value == ssa.Value(callee.Params[i]) {
+						p.labels = append(p.labels, "nil-arg."+short)
+						k(p, AVal{}, true)
+						return
+					}
+				}
+			}
+		}
 	}
 	if it.Fallible[short] {
 		errIdx := nres - 1
